@@ -12,12 +12,14 @@ import (
 	"os"
 	"path/filepath"
 	"runtime"
+	"strings"
 	"sync"
 	"sync/atomic"
 	"time"
 
 	"github.com/kelindar/column"
 	"github.com/kelindar/column/commit"
+	"github.com/zeebo/xxh3"
 )
 
 type raceSummary struct {
@@ -27,6 +29,7 @@ type raceSummary struct {
 	Panics    []string       `json:"panics"`
 	Seconds   float64        `json:"seconds"`
 	Cores     int            `json:"cores"`
+	Invariant []string       `json:"invariant_violations"`
 }
 
 func raceColl() *column.Collection {
@@ -102,6 +105,7 @@ func cmdRace(args []string) {
 	seconds := fs.Float64("seconds", 2, "seconds per workload")
 	out := fs.String("out", "", "output directory")
 	known := fs.Bool("known", false, "also run the workloads that trigger the known findings K9 / K11")
+	only := fs.String("only", "", "run only the workloads whose name contains this")
 	fs.Parse(args)
 	os.MkdirAll(*out, 0o755)
 	d := time.Duration(*seconds * float64(time.Second))
@@ -116,12 +120,99 @@ func cmdRace(args []string) {
 		}
 	}
 	run := func(name string, workers []func(stop *int32, ops *int64)) {
+		if *only != "" && !strings.Contains(name, *only) {
+			return
+		}
 		n, stuck, panics := runWorkload(name, d, workers)
 		s.Workloads[name] = int(n)
 		if stuck {
 			s.Stuck = append(s.Stuck, name)
 		}
 		s.Panics = append(s.Panics, panics...)
+	}
+
+	// 0. writers in three different blocks store a fresh number and the enum string derived from it
+	// into one row per transaction; readers check the pair inside one callback: every row state a
+	// reader sees is one that some transaction committed (C10) - the enum dictionary is shared by
+	// all blocks while the writers hold different block latches
+	if *only == "" || strings.Contains("pairs over blocks", *only) {
+		c := raceColl()
+		insertRows(c, 40000)
+		var next int64 = 1000000
+		var bad, k3 int64
+		var hashOwner sync.Map
+		var mu sync.Mutex
+		report := func(f string, a ...interface{}) {
+			if atomic.AddInt64(&bad, 1) <= 4 {
+				mu.Lock()
+				s.Invariant = append(s.Invariant, "[C10] "+fmt.Sprintf(f, a...))
+				mu.Unlock()
+			}
+		}
+		var ws []func(*int32, *int64)
+		for w := 0; w < 6; w++ {
+			w := w
+			ws = append(ws, loop(func(i int) {
+				off := uint32((w%3)*16384 + (i*7919+w*131)%7000)
+				n := atomic.AddInt64(&next, 1)
+				// enum strings are interned by 32 bits of their hash (finding K3): a string whose hash
+				// another string of this run owns would read back as that other string - skipped
+				if owner, loaded := hashOwner.LoadOrStore(uint32(xxh3.HashString(fmt.Sprint("v", n))), n); loaded && owner.(int64) != n {
+					atomic.AddInt64(&k3, 1)
+					return
+				}
+				c.QueryAt(off, func(r column.Row) error {
+					r.SetInt64("a", n)
+					r.SetEnum("e", fmt.Sprint("v", n))
+					return nil
+				})
+			}))
+		}
+		check := func(off uint32, a int64, okA bool, e string, okE bool) {
+			if okA && a >= 1000000 && (!okE || e != fmt.Sprint("v", a)) {
+				report("row %d read inside one callback: a=%d goes with e=%q (present=%v), every transaction stores e = \"v\"+a", off, a, e, okE)
+			}
+		}
+		for w := 0; w < 4; w++ {
+			w := w
+			ws = append(ws, loop(func(i int) {
+				off := uint32(((i+w)%3)*16384 + (i*104729)%7000)
+				c.QueryAt(off, func(r column.Row) error {
+					a, okA := r.Int64("a")
+					e, okE := r.Enum("e")
+					check(off, a, okA, e, okE)
+					return nil
+				})
+			}))
+		}
+		ws = append(ws, loop(func(i int) {
+			c.Query(func(txn *column.Txn) error {
+				ra, re := txn.Int64("a"), txn.Enum("e")
+				return txn.WithInt("a", func(v int64) bool { return v >= 1000000 }).Range(func(x uint32) {
+					a, okA := ra.Get()
+					e, okE := re.Get()
+					check(x, a, okA, e, okE)
+				})
+			})
+		}))
+		run("pairs over blocks", ws)
+		s.Workloads["pairs over blocks: colliding enum strings skipped (K3)"] = int(k3)
+		// ... and at rest (a worker that died inside a transaction may have left a latch behind: the
+		// watchdog of the workload has reported that; do not wait for it here)
+		if !within(15*time.Second, func() {
+			defer func() { recover() }()
+			c.Query(func(txn *column.Txn) error {
+				ra, re := txn.Int64("a"), txn.Enum("e")
+				return txn.Range(func(x uint32) {
+					a, okA := ra.Get()
+					e, okE := re.Get()
+					check(x, a, okA, e, okE)
+				})
+			})
+			c.Close()
+		}) {
+			report("the collection cannot be read any more after the workload (a latch is still held)")
+		}
 	}
 
 	// 1. writers, point readers, range readers, filters on existing rows of two blocks
